@@ -125,3 +125,185 @@ package agent
 //@   trusted
 //@   nopanic
 //@   ensures result == rank(this, first, second)
+
+// ---------------------------------------------------------------- sorter (C09)
+
+// cnt(s, lo, hi, x): number of occurrences of x in s[lo:hi] (multiset count; permutation = equal counts).
+//@ declare cnt(Seq, Int, Int, U) Int
+//@ axiom cnt_empty: forall s Seq, lo Int, hi Int, x U :: { cnt(s, lo, hi, x) } hi <= lo ==> cnt(s, lo, hi, x) == 0
+//@ axiom cnt_snoc: forall s Seq, lo Int, hi Int, h2 Int, x U :: { cnt(s, lo, hi, x), cnt(s, lo, h2, x) } hi == h2 + 1 && lo <= h2 ==> cnt(s, lo, hi, x) == cnt(s, lo, h2, x) + ite(s[h2] == x, 1, 0)
+// unfolding used only inside the induction proofs below
+//@ axiom[private] cnt_unfold: forall s Seq, lo Int, hi Int, x U :: { cnt(s, lo, hi, x) } lo < hi ==> cnt(s, lo, hi, x) == cnt(s, lo, hi - 1, x) + ite(s[hi - 1] == x, 1, 0)
+
+//@ lemma[C09] cnt_agree measure ite(hi > lo, hi - lo, 0): forall s Seq, t Seq, lo Int, hi Int, lo2 Int, hi2 Int, x U :: { cnt(s, lo, hi, x), cnt(t, lo2, hi2, x) } hi - lo == hi2 - lo2 && (forall i :: lo <= i && i < hi ==> s[i] == t[i + lo2 - lo]) ==> cnt(s, lo, hi, x) == cnt(t, lo2, hi2, x)
+//@ lemma[C09] cnt_extend uses cnt_agree, cnt_unfold: forall s Seq, t Seq, lo Int, hi Int, k Int, x U :: { cnt(t, lo, hi, x), cnt(s, lo, k, x) } hi == k + 1 && lo <= k && (forall i :: lo <= i && i < k ==> t[i] == s[i]) ==> cnt(t, lo, hi, x) == cnt(s, lo, k, x) + ite(t[k] == x, 1, 0)
+//@ lemma[C09] cnt_split measure ite(hi > lo, hi - lo, 0): forall s Seq, lo Int, mid Int, hi Int, x U :: { cnt(s, lo, mid, x), cnt(s, mid, hi, x) } lo <= mid && mid <= hi ==> cnt(s, lo, hi, x) == cnt(s, lo, mid, x) + cnt(s, mid, hi, x)
+//@ lemma[C09] cnt_nonneg measure ite(hi > lo, hi - lo, 0): forall s Seq, lo Int, hi Int, x U :: { cnt(s, lo, hi, x) } cnt(s, lo, hi, x) >= 0
+
+// rankers: a ranking function is modelled by rank(fn, a, b) when it is a deterministic function (rankdet);
+// otherwise every call returns an arbitrary value.
+//@ declare rankdet(U) Bool
+//@ define rpre(r) := rankdet(r) && (forall a U :: rank(r, a, a) == 1) && (forall a, b U :: rank(r, a, b) == 2 - rank(r, b, a)) && (forall a, b, d U :: rank(r, a, b) <= 1 && rank(r, b, d) <= 1 ==> rank(r, a, d) <= 1)
+//@ define ordered(r, s, lo, hi) := forall i, j :: lo <= i && i < j && j < hi ==> rank(r, s[i], s[j]) <= 1
+
+//@ iface RankingFunction.call
+//@   trusted
+//@   nopanic
+//@   ensures rankdet(this) ==> result == rank(this, first, second)
+
+//@ func (*sorter_).ReverseValues
+//@   props C09
+//@   nopanic
+//@   let n := len(values)
+//@   let s := view(values)
+//@   modifies elems(values)
+//@   ensures[C09] len(values) == n && (forall i :: 0 <= i && i < n ==> view(values)[i] == s[n - 1 - i])
+//@   ensures[C09] forall j :: (j < off(values) || j >= off(values) + n) ==> rawat(values, j) == old(rawat(values, j))
+//@   loop 1:
+//@     invariant 0 <= index && index <= half && half == n / 2 && length == n && n >= 0
+//@     invariant forall i :: 0 <= i && i < index ==> view(values)[i] == s[n - 1 - i] && view(values)[n - 1 - i] == s[i]
+//@     invariant forall i :: index <= i && i < n - index ==> view(values)[i] == s[i]
+//@     invariant forall j :: (j < off(values) || j >= off(values) + n) ==> rawat(values, j) == old(rawat(values, j))
+//@     decreases half - index
+
+//@ type *sorter_
+//@   invariant this.ranker_ != nil
+
+//@ define outside(s, j) := j < off(s) || j >= off(s) + len(s)
+
+//@ func (*sorter_).mergeArrays
+//@   props C09
+//@   uses cnt_extend
+//@   nopanic
+//@   let L := view(left)
+//@   let R := view(right)
+//@   let nl := len(left)
+//@   let nr := len(right)
+//@   let rk := this.ranker_
+//@   requires len(merged) == len(left) + len(right) && arr(merged) != arr(left) && arr(merged) != arr(right)
+//@   modifies elems(merged)
+//@   ensures[C09] forall j :: outside(merged, j) ==> rawat(merged, j) == old(rawat(merged, j))
+//@   ensures[C09] forall x U :: cnt(view(merged), 0, len(merged), x) == cnt(L, 0, nl, x) + cnt(R, 0, nr, x)
+//@   ensures[C09] rpre(rk) && ordered(rk, L, 0, nl) && ordered(rk, R, 0, nr) ==> ordered(rk, view(merged), 0, len(merged))
+//@   loop 1:
+//@     invariant 0 <= leftIndex && leftIndex <= nl && 0 <= rightIndex && rightIndex <= nr && mergedIndex == leftIndex + rightIndex
+//@     invariant leftLength == nl && rightLength == nr && mergedLength == nl + nr && view(left) == L && view(right) == R
+//@     invariant forall j :: outside(merged, j) ==> rawat(merged, j) == old(rawat(merged, j))
+//@     invariant forall x U :: cnt(view(merged), 0, mergedIndex, x) == cnt(L, 0, leftIndex, x) + cnt(R, 0, rightIndex, x)
+//@     invariant rpre(rk) && ordered(rk, L, 0, nl) && ordered(rk, R, 0, nr) ==> ordered(rk, view(merged), 0, mergedIndex)
+//@     invariant rpre(rk) && ordered(rk, L, 0, nl) && ordered(rk, R, 0, nr) ==> (forall i :: 0 <= i && i < mergedIndex ==> (leftIndex < nl ==> rank(rk, view(merged)[i], L[leftIndex]) <= 1) && (rightIndex < nr ==> rank(rk, view(merged)[i], R[rightIndex]) <= 1))
+//@     decreases mergedLength - mergedIndex
+
+// run structure of the bottom-up merge sort: rdiv(i, w) is the index of the run of width w that
+// position i belongs to; aligned(p, w) says p is the first position of such a run.
+//@ declare rdiv(Int, Int) Int
+//@ declare aligned(Int, Int) Bool
+//@ define samerun(i, j, w) := rdiv(i, w) == rdiv(j, w)
+//@ axiom align_zero: forall w Int :: { aligned(0, w) } w >= 1 ==> aligned(0, w)
+//@ axiom align_step: forall p Int, w Int, q Int :: { aligned(p, w), aligned(q, w) } w >= 1 && aligned(p, w) && q == p + w ==> aligned(q, w)
+//@ axiom align_half: forall p Int, w Int, w2 Int :: { aligned(p, w2), aligned(p, w) } w >= 1 && w2 == 2 * w && aligned(p, w2) ==> aligned(p, w)
+//@ axiom rdiv_mono: forall i Int, j Int, w Int :: { rdiv(i, w), rdiv(j, w) } w >= 1 && i <= j ==> rdiv(i, w) <= rdiv(j, w)
+//@ axiom rdiv_before: forall p Int, w Int, i Int :: { aligned(p, w), rdiv(i, w) } w >= 1 && aligned(p, w) && 0 <= i && i < p ==> rdiv(i, w) < rdiv(p, w)
+//@ axiom rdiv_within: forall p Int, w Int, i Int :: { aligned(p, w), rdiv(i, w) } w >= 1 && aligned(p, w) && p <= i && i < p + w ==> rdiv(i, w) == rdiv(p, w)
+//@ axiom rdiv_first: forall i Int, w Int :: { rdiv(i, w) } 0 <= i && i < w ==> rdiv(i, w) == 0
+//@ axiom rdiv_one: forall i Int :: { rdiv(i, 1) } i >= 0 ==> rdiv(i, 1) == i
+
+//@ define runsordered(r, s, n, w) := forall i, j :: { rdiv(i, w), rdiv(j, w) } 0 <= i && i <= j && j < n && samerun(i, j, w) ==> rank(r, s[i], s[j]) <= 1
+
+//@ func (*sorter_).sortValues
+//@   props C09
+//@   uses cnt_agree, cnt_split, cnt_extend
+//@   nopanic
+//@   let N := len(values)
+//@   let V0 := view(values)
+//@   let rk := this.ranker_
+//@   modifies elems(values)
+//@   ensures[C09] forall j :: outside(values, j) ==> rawat(values, j) == old(rawat(values, j))
+//@   ensures[C09] forall x U :: cnt(view(values), 0, N, x) == cnt(V0, 0, N, x)
+//@   loop 1:
+//@     invariant width >= 1 && width <= 2 * MAXLEN && length == N && len(values) == N && len(buffer) == N && arr(values) != arr(buffer)
+//@     invariant (values == entry(values) && fresh(buffer)) || (buffer == entry(values) && fresh(values))
+//@     invariant forall j :: outside(entry(values), j) ==> rawat(entry(values), j) == old(rawat(entry(values), j))
+//@     invariant forall x U :: cnt(view(buffer), 0, N, x) == cnt(V0, 0, N, x)
+//@     invariant unchanged(elems, arr(entry(values)))
+//@     decreases N - width
+//@   loop 2:
+//@     invariant 0 <= left && left <= N + 2 * width && aligned(left, 2 * width) && width >= 1 && width < N && width <= MAXLEN && length == N && len(values) == N && len(buffer) == N && arr(values) != arr(buffer)
+//@     invariant (values == entry(values) && fresh(buffer)) || (buffer == entry(values) && fresh(values))
+//@     invariant forall j :: outside(entry(values), j) ==> rawat(entry(values), j) == old(rawat(entry(values), j))
+//@     invariant forall x U :: cnt(view(buffer), 0, N, x) == cnt(V0, 0, N, x)
+//@     invariant unchanged(elems, arr(entry(values)))
+//@     invariant left <= N ==> (forall x U :: cnt(view(values), 0, left, x) == cnt(view(buffer), 0, left, x))
+//@     invariant left > N ==> (forall x U :: cnt(view(values), 0, N, x) == cnt(view(buffer), 0, N, x))
+//@     decreases N + 2 * width - left
+//@   hint call4: forall x U :: cnt(view(values[left:right]), 0, right - left, x) == cnt(view(buffer[left:middle]), 0, middle - left, x) + cnt(view(buffer[middle:right]), 0, right - middle, x)
+//@   hint call4: forall x U :: { cnt(view(buffer), 0, left, x) } cnt(view(buffer), 0, left, x) == cnt(pre(view(buffer)), 0, left, x)
+//@   hint call4: forall x U :: { cnt(view(values), 0, left, x) } cnt(view(values), 0, left, x) == cnt(pre(view(values)), 0, left, x)
+//@   hint call4: forall x U :: cnt(view(values), 0, left, x) == cnt(view(buffer), 0, left, x)
+//@   hint call4: forall x U :: { cnt(view(values), left, right, x) } cnt(view(values), left, right, x) == cnt(view(values[left:right]), 0, right - left, x)
+//@   hint call4: forall x U :: { cnt(view(buffer), left, middle, x) } cnt(view(buffer), left, middle, x) == cnt(view(buffer[left:middle]), 0, middle - left, x)
+//@   hint call4: forall x U :: { cnt(view(buffer), middle, right, x) } cnt(view(buffer), middle, right, x) == cnt(view(buffer[middle:right]), 0, right - middle, x)
+//@   hint call4: forall x U :: cnt(view(values), left, right, x) == cnt(view(buffer), left, middle, x) + cnt(view(buffer), middle, right, x)
+//@   hint call4: forall x U :: { cnt(view(values), 0, right, x) } cnt(view(values), 0, right, x) == cnt(view(values), 0, left, x) + cnt(view(values), left, right, x)
+//@   hint call4: forall x U :: { cnt(view(buffer), 0, middle, x) } cnt(view(buffer), 0, middle, x) == cnt(view(buffer), 0, left, x) + cnt(view(buffer), left, middle, x)
+//@   hint call4: forall x U :: { cnt(view(buffer), 0, right, x) } cnt(view(buffer), 0, right, x) == cnt(view(buffer), 0, middle, x) + cnt(view(buffer), middle, right, x)
+//@   hint call4: forall x U :: cnt(view(values), 0, right, x) == cnt(view(buffer), 0, right, x)
+
+//@ lemma[C09] cnt_point uses cnt_unfold: forall s Seq, k Int, q Int, x U :: { cnt(s, k, q, x) } q == k + 1 ==> cnt(s, k, q, x) == ite(s[k] == x, 1, 0)
+//@ lemma[C09] cnt_five uses cnt_split: forall s Seq, n Int, a Int, b Int, a1 Int, b1 Int, x U :: { cnt(s, 0, n, x), cnt(s, a, a1, x), cnt(s, b, b1, x) } 0 <= a && a < b && b < n && a1 == a + 1 && b1 == b + 1 ==> cnt(s, 0, n, x) == cnt(s, 0, a, x) + cnt(s, a, a1, x) + cnt(s, a1, b, x) + cnt(s, b, b1, x) + cnt(s, b1, n, x)
+//@ define fiveparts(s, n, a, b, x) := cnt(s, 0, a, x) >= 0 && cnt(s, a, a + 1, x) >= 0 && cnt(s, a + 1, b, x) >= 0 && cnt(s, b, b + 1, x) >= 0 && cnt(s, b + 1, n, x) >= 0
+//@ lemma[C09] cnt_swap_lt uses cnt_five, cnt_agree, cnt_point: forall s Seq, t Seq, n Int, a Int, b Int, x U :: { cnt(t, 0, n, x), cnt(s, 0, n, x), t[a], t[b] } 0 <= a && a < b && b < n && t[a] == s[b] && t[b] == s[a] && (forall i :: 0 <= i && i < n && i != a && i != b ==> t[i] == s[i]) && fiveparts(s, n, a, b, x) && fiveparts(t, n, a, b, x) ==> cnt(t, 0, n, x) == cnt(s, 0, n, x)
+//@ lemma[C09] cnt_swap uses cnt_swap_lt, cnt_agree, cnt_nonneg: forall s Seq, t Seq, n Int, a Int, b Int, x U :: { cnt(t, 0, n, x), cnt(s, 0, n, x), t[a], t[b] } 0 <= a && a <= b && b < n && t[a] == s[b] && t[b] == s[a] && (forall i :: 0 <= i && i < n && i != a && i != b ==> t[i] == s[i]) ==> cnt(t, 0, n, x) == cnt(s, 0, n, x)
+
+//@ func (*sorter_).randomizeIndex
+//@   noverify
+//@   trusted
+//@   nopanic
+//@   requires size > 0
+//@   ensures 0 <= result && result < size
+
+//@ iface SorterLike.SortValues
+//@   nopanic
+//@   let N := len(values)
+//@   let V0 := view(values)
+//@   modifies elems(values)
+//@   ensures[C09] forall j :: outside(values, j) ==> rawat(values, j) == old(rawat(values, j))
+//@   ensures[C09] forall x U :: cnt(view(values), 0, N, x) == cnt(V0, 0, N, x)
+//@ iface SorterLike.ReverseValues
+//@   nopanic
+//@   let n := len(values)
+//@   let s := view(values)
+//@   modifies elems(values)
+//@   ensures[C09] forall i :: 0 <= i && i < n ==> view(values)[i] == s[n - 1 - i]
+//@   ensures[C09] forall j :: outside(values, j) ==> rawat(values, j) == old(rawat(values, j))
+//@ iface SorterLike.ShuffleValues
+//@   nopanic
+//@   let N := len(values)
+//@   let V0 := view(values)
+//@   modifies elems(values)
+//@   ensures[C09] forall j :: outside(values, j) ==> rawat(values, j) == old(rawat(values, j))
+//@   ensures[C09] forall x U :: cnt(view(values), 0, N, x) == cnt(V0, 0, N, x)
+
+//@ func (*sorter_).SortValues
+//@   props C09
+//@   implements SorterLike.SortValues
+//@ func (*sorter_).ShuffleValues
+//@   props C09
+//@   implements SorterLike.ShuffleValues
+//@   uses cnt_swap
+//@   loop 1:
+//@     invariant 0 <= i && i <= size && size == N
+//@     invariant forall j :: outside(values, j) ==> rawat(values, j) == old(rawat(values, j))
+//@     invariant forall x U :: cnt(view(values), 0, N, x) == cnt(V0, 0, N, x)
+//@     decreases size - i
+
+//@ iface SorterClassLike.Make
+//@   nopanic
+//@   ensures fresh(result) && result != nil
+//@ iface SorterClassLike.MakeWithRanker
+//@   nopanic
+//@   ensures fresh(result) && result != nil
+
+// reversal preserves counts (induction from the left end)
+//@ lemma[C09,C03] cnt_cons uses nothing measure ite(hi > lo, hi - lo, 0): forall s Seq, lo Int, hi Int, x U :: { cnt(s, lo, hi, x) } lo < hi ==> cnt(s, lo, hi, x) == ite(s[lo] == x, 1, 0) + cnt(s, lo + 1, hi, x)
+//@ lemma[C09,C03] cnt_rev uses cnt_cons measure ite(m > 0, m, 0): forall s Seq, t Seq, n Int, m Int, k Int, x U :: { cnt(s, 0, m, x), cnt(t, k, n, x) } k == n - m && 0 <= m && m <= n && (forall i :: 0 <= i && i < m ==> s[i] == t[n - 1 - i]) ==> cnt(s, 0, m, x) == cnt(t, k, n, x)
